@@ -430,10 +430,74 @@ LEAVES = [
 SMALL_LEAVES = [1, "a", "あ", None]
 
 
+_BOUNDARY = None
+
+
+def boundary_chars():
+    """[(char, class)] taken from rich/_cell_widths.py at run time: for every row of CELL_WIDTHS the first, last
+    and an interior code point, and the neighbours just outside the row; class = w2 / w0 (wide / zero-width
+    row), `1` suffix for single-code-point rows, out-lo / out-hi for the neighbours.  Surrogates excluded
+    (they cannot travel through the line protocol)."""
+    global _BOUNDARY
+    if _BOUNDARY is None:
+        from rich._cell_widths import CELL_WIDTHS
+
+        inside = set()
+        for s_, e_, _w in CELL_WIDTHS:
+            if e_ - s_ < 4096:
+                inside.update(range(s_, e_ + 1))
+        out = []
+        seen = set()
+
+        def add(cp, cls):
+            if 0 <= cp <= 0x10FFFF and not (0xD800 <= cp <= 0xDFFF) and (cp, cls) not in seen:
+                seen.add((cp, cls))
+                out.append((chr(cp), cls))
+
+        for s_, e_, w in CELL_WIDTHS:
+            kind = "w2" if w == 2 else "w0" if w in (0, -1) else "w1"
+            if s_ == e_:
+                add(s_, kind + ":single")
+            else:
+                add(s_, kind + ":first")
+                add(e_, kind + ":last")
+                if e_ - s_ >= 2:
+                    add((s_ + e_) // 2, kind + ":interior")
+                    add(e_ - 1, kind + ":last-1")
+            add(s_ - 1, "out-lo" if (s_ - 1) not in inside else "adjacent-lo")
+            add(e_ + 1, "out-hi" if (e_ + 1) not in inside else "adjacent-hi")
+        _BOUNDARY = out
+    return _BOUNDARY
+
+
+def boundary_values():
+    """one small value per boundary character c (repeated so that a wrong width of c moves the fit decision by
+    several cells), rotating through the shapes: string items, dict key + value, one-element tuple, nested list."""
+    for i, (c, cls) in enumerate(boundary_chars()):
+        k = i % 5
+        if k == 0:
+            yield [c * 3, "a"], cls
+        elif k == 1:
+            yield {c * 2: c, "k": [c * 2]}, cls
+        elif k == 2:
+            yield (c * 4,), cls
+        elif k == 3:
+            yield [[c, c + c], c * 3], cls
+        else:
+            yield [c * 4, c * 4, c * 2], cls
+
+
+def rand_boundary_string(rng):
+    bc = boundary_chars()
+    return "".join(rng.choice(bc)[0] if rng.random() < 0.7 else rng.choice("a あ'") for _ in range(rng.randint(1, 10)))
+
+
 def rand_leaf(rng, hashable=True):
     r = rng.random()
-    if r < 0.75:
+    if r < 0.68:
         return rng.choice(LEAVES)
+    if r < 0.75:
+        return rand_boundary_string(rng)
     if r < 0.85:
         return rng.randint(-10**6, 10**6)
     if r < 0.93:
